@@ -29,7 +29,7 @@ from props import e2e
 
 ID = 'C12'
 HARNESS = 'c12'
-COQ_IMPORTS = 'From VRP Require Import Base.Tac Model.Core Spec.Valid Spec.Mutations.'
+COQ_IMPORTS = 'From VRP Require Import Base.Tac Model.Core Spec.Valid Spec.Relations Spec.Mutations.'
 MODEL_TARGETS = ['theories/Spec/Mutations.vo']
 SHARD = 24
 SIZES = {'quick': 36, 'thorough': 300, 'search': 120}      # number of SOLVED pairs (P, S); cases = pairs x (1 + sites)
@@ -37,16 +37,18 @@ CAP = {'quick': 3, 'thorough': 12, 'search': 6}
 UNKNOWN = 'c12-unknown-job'
 FIELDS = ['cost', 'distance', 'duration', 'driving', 'serving', 'waiting', 'break']
 RULE = ('pairs (P, S): generated pragmatic problems (e2e generator: 3-10 jobs incl. multi-task jobs, 1-3 vehicle types, shifts, '
-        'capacity, skills, limits, metric / non-metric integer matrices) solved by the real solver (1-20 generations); per pair '
+        'capacity, skills, limits, metric / non-metric integer matrices, every additive feature of the e2e generator incl. reloads '
+        'and optional breaks; one batch in which every problem has breaks; one batch of problems with relations derived from a '
+        'solution of the same problem) solved by the real solver (1-20 generations); per pair '
         'the unmutated document plus every breach class of Spec/Mutations.v at systematically enumerated sites (quick: at most 3 '
         'evenly spaced sites per class and solution). non-trivial = distinct (P, S, class, site) where S has at least one tour.')
 TRUSTED = ['rendering of the JSON documents into the reduced Coq types (e2e.g_problem / g_solution)',
            'the Python mirror of every mutation operator is validated against the Coq operator on every site through a '
            'fingerprint of the whole mutated document (not trusted)',
            'the harness calls vrp_cli::extensions::check::check_pragmatic_solution, the function behind `vrp-cli check pragmatic`']
-ASSUMPTIONS = ['problem fragment of the e2e generator WITHOUT breaks, relations, recharges, clustering (reloads are generated): the two '
-               'breach classes "broken relation" and "misplaced break" are not generated and not covered (optional breaks are known to '
-               'the reference semantics but excluded here: the bundled checker rejects many valid documents with breaks, notes/C12.md)',
+ASSUMPTIONS = ['problem fragment of the e2e generator (reloads, OPTIONAL breaks, relations derived from a solution of the same problem) '
+               'without required breaks, recharges, clustering, time-dependent routing; "misplaced break" = a break reported at a '
+               'location where no place of a break of the shift is / a break that takes time listed twice / taken out of the tour',
                'arrival / distance / tour-statistic breaches are injected with |d| = 2 (the checker documents a tolerance of 1)',
                'the bundled checker is not modelled structurally; it is tied to the reference semantics valid_b behaviourally']
 
@@ -90,19 +92,106 @@ def generate(rng, tier, n):
         gens = rng.choice([1, 2, 3, rng.range(4, 20)])
         solve_cases.append({'op': 'solve', 'problem': p['problem'], 'matrices': p['matrices'],
                             'config': {'max_generations': gens, 'seed': rng.below(1000)}})
+    # two further batches, each from its own forked stream (the problems above stay what they were): problems that all have
+    # optional breaks, and problems WITH RELATIONS (derived from a solution of the same problem: e2e.gen_relation_problems, solved
+    # here by the c12 binary)
+    brng, rrng, grng = rng.fork('c12-breaks'), rng.fork('c12-relations'), rng.fork('c12-growing')
+    nb, nr, ng = max(2, n // 6), max(3, n // 3), max(3, n // 9)
+    bprobs = [e2e.gen_checked_problem(brng, features=('breaks',) + tuple(f for f in e2e.FEATURES if brng.chance(1, 4)))
+              for _ in range(nb + nb // 3 + 1)]
+    rprobs = e2e.gen_relation_problems(rrng, nr + nr // 3 + 1, solver=_solve_all, tweak=_more_services(rrng), derive=_rel_derive)
+    # tours whose load GROWS up to the last stop of a load interval (seeded change C12-3: capacity compared at the `from` stop of
+    # every leg only): open-ended last shifts, most single deliveries turned into static pickups, reloads on half of them
+    gprobs = [_growing(grng, e2e.gen_checked_problem(grng, features=('reloads',) if grng.chance(1, 2) else ()))
+              for _ in range(ng + ng // 3 + 1)]
+    for stream, ps in ((brng, bprobs), (rrng, rprobs), (grng, gprobs)):
+        for p in ps:
+            solve_cases.append({'op': 'solve', 'problem': p['problem'], 'matrices': p['matrices'],
+                                'config': {'max_generations': stream.choice([1, 2, 3, stream.range(4, 20)]), 'seed': stream.below(1000)}})
     sols = _solve_all(solve_cases)
-    cases, pairs = [], 0
-    for p, r in zip(probs, sols):
-        if pairs >= n:
-            break
-        if not isinstance(r, dict) or 'solution' not in r or e2e.unsupported(p, r['solution']):
-            continue
-        s = r['solution']
-        cases.append(make_case(p, s, None))
-        for m in sites(p, s, CAP.get(tier, 3), pairs):
-            cases.append(make_case(p, s, m))
-        pairs += 1
+    cases = []
+
+    def take(ps, rs, want, cap, rot0):
+        pairs = 0
+        for p, r in zip(ps, rs):
+            if pairs >= want:
+                break
+            if not isinstance(r, dict) or 'solution' not in r or e2e.unsupported(p, r['solution']):
+                continue
+            s = r['solution']
+            cases.append(make_case(p, s, None))
+            for m in sites(p, s, cap, rot0 + pairs):
+                cases.append(make_case(p, s, m))
+            pairs += 1
+    k1, k2 = len(probs), len(probs) + len(bprobs)
+    k3 = k2 + len(rprobs)
+    take(probs, sols[:k1], n, CAP.get(tier, 3), 0)
+    take(bprobs, sols[k1:k2], nb, CAP.get(tier, 3), 0)
+    take(rprobs, sols[k2:k3], nr, CAP.get(tier, 3), 0)
+    take(gprobs, sols[k3:], ng, CAP.get(tier, 3), 0)
     return cases
+
+
+def _more_services(rng):
+    """base problems of the relation batch get more SERVICE jobs (a third of the single deliveries / pickups lose their demand):
+    the `any` rule of relations.rs has to see service activities in the tours of other vehicles too (seeded change C12-4)"""
+    def tweak(p):
+        for j in p['problem']['plan']['jobs']:
+            keys = [k for k in ('pickups', 'deliveries', 'replacements', 'services') if j.get(k)]
+            if len(keys) == 1 and keys[0] in ('pickups', 'deliveries') and len(j[keys[0]]) == 1 and rng.chance(1, 2):
+                t = j.pop(keys[0])[0]
+                t.pop('demand', None)
+                j['services'] = [t]
+        return p
+    return tweak
+
+
+def _rel_derive(rng, p, s):
+    """e2e.derive_relations, plus an `any` relation naming a SERVICE job for tours that got no relation"""
+    rels = e2e.derive_relations(rng, p, s)
+    # a strict relation without anchors is also a valid SEQUENCE relation (the weaker rule): a third of them are turned into one,
+    # so that sequence relations with several jobs are frequent enough for the order breach
+    for r in rels:
+        if r['type'] == 'strict' and not any(x in ('departure', 'arrival') for x in r['jobs']) and rng.chance(1, 3):
+            r['type'] = 'sequence'
+    have = {(r['vehicleId'], r.get('shiftIndex') or 0): r for r in rels}
+    jobs = {j['id']: j for j in p['problem']['plan']['jobs']}
+    for t in s.get('tours') or []:
+        key = (t['vehicleId'], t.get('shiftIndex', 0))
+        if key in have and have[key]['type'] != 'any':
+            continue
+        svc = []
+        for st in t['stops']:
+            for a in st['activities']:
+                j = jobs.get(a.get('jobId'))
+                if a.get('type') == 'service' and j is not None and len(e2e.tasks_of(j)) == 1:
+                    pl = j['services'][0]['places']
+                    if len(pl) == 1 and len(pl[0].get('times') or []) <= 1:
+                        svc.append(a['jobId'])
+        if not svc:
+            continue
+        if key in have:                   # an `any` relation of this tour: it also names one of the tour's service jobs
+            if not any(x in svc for x in have[key]['jobs']):
+                have[key]['jobs'].append(rng.choice(svc))
+        else:
+            rel = {'type': 'any', 'vehicleId': t['vehicleId'], 'jobs': [rng.choice(svc)]}
+            if key[1] != 0:
+                rel['shiftIndex'] = key[1]
+            rels.append(rel)
+    return rels
+
+
+def _growing(rng, p):
+    """the last shift of every vehicle becomes open-ended and two thirds of the single deliveries become static pickups: the
+    load grows along the tour and peaks at the last stop of a load interval (last stop of the tour / last stop before a reload)"""
+    for v in p['problem']['fleet']['vehicles']:
+        v['shifts'][-1].pop('end', None)
+    for j in p['problem']['plan']['jobs']:
+        keys = [k for k in ('pickups', 'deliveries', 'replacements', 'services') if j.get(k)]
+        if keys == ['deliveries'] and len(j['deliveries']) == 1 and rng.chance(2, 3):
+            j['pickups'] = j.pop('deliveries')
+    e2e.renumber_locations(p['problem'], p['matrices'])
+    return p
 
 
 def make_case(p, s, m):
@@ -175,7 +264,10 @@ def mutate(problem, sol, m):
         del tours[m['k']]['stops'][m['s']]
     elif op == 'MCopyStop':
         tours[m['k2']]['stops'].insert(1, copy.deepcopy(stop()))
-    elif op == 'MMoveStop':
+    elif op == 'MRelShift':
+        st = tours[m['k']]['stops'].pop(m['s'])
+        tours[m['k']]['stops'].insert(m['s2'], st)
+    elif op in ('MMoveStop', 'MRelTour'):
         st = copy.deepcopy(stop())
         del tours[m['k']]['stops'][m['s']]
         tours[m['k2']]['stops'].insert(1, st)
@@ -230,8 +322,10 @@ def g_mutation(m, ids):
         return '(MUnknownUn %s)' % z(ids.job(UNKNOWN))
     if op in ('MDupUn', 'MDropUn'):
         return '(%s %s)' % (op, n('i'))
-    if op in ('MCopyStop', 'MMoveStop'):
+    if op in ('MCopyStop', 'MMoveStop', 'MRelTour'):
         return '(%s %s %s %s)' % (op, n('k'), n('s'), n('k2'))
+    if op == 'MRelShift':
+        return '(MRelShift %s %s %s)' % (n('k'), n('s'), n('s2'))
     if op in ('MBoth', 'MBreakDup', 'MBreakDrop'):
         return '(%s %s %s %s)' % (op, n('k'), n('s'), n('a'))
     if op == 'MBreakLoc':
@@ -249,8 +343,17 @@ def mut_class(m, sol=None):
     if op == 'MLoad':
         if sol is not None and len(sol['tours'][m['k']]['stops']) == 1:
             return 'load-misreported-single-stop-tour'
+        if sol is not None:
+            # findings C12-F8 / F11: at a reload stop that also serves jobs, or that is the last stop of the tour, the checker's OWN
+            # expectation of the reported load is wrong (it rejects the true value), so a wrong value can happen to satisfy it
+            stops = sol['tours'][m['k']]['stops']
+            acts = stops[m['s']]['activities']
+            if any(a.get('type') == 'reload' for a in acts) and (any(_is_job(a) for a in acts) or m['s'] == len(stops) - 1):
+                return 'load-misreported-at-reload-stop-with-jobs-or-last'
         return 'load-misreported'
     if op == 'MCapacity':
+        if sol is not None and len(sol['tours'][m['k']]['stops']) == 1:
+            return 'load-above-capacity-single-stop-tour'          # no leg, nothing is load-checked: finding C12-F3
         return 'load-above-capacity'
     if op == 'MUnknownAct':
         return 'unknown-job-activity'
@@ -278,6 +381,9 @@ def mut_class(m, sol=None):
         return 'stat-tour-' + FIELDS[m['f']]
     if op == 'MStatTotal':
         return 'stat-total-' + FIELDS[m['f']]
+    if op in ('MRelTour', 'MRelShift'):
+        # relations.rs compares only the VEHICLE id for an `any` relation: another shift of the same vehicle passes
+        return 'broken-relation-' + REL_SUB[m['f']] + ('/any-relation-other-shift-of-the-same-vehicle' if m.get('anyshift') else '')
     return {'MLimitDistance': 'limit-max-distance', 'MLimitDuration': 'limit-max-duration', 'MLimitSize': 'limit-tour-size',
             'MBreakLoc': 'misplaced-break-location', 'MBreakDup': 'misplaced-break-duplicated',
             'MBreakDrop': 'misplaced-break-dropped'}[op]
@@ -296,7 +402,94 @@ EXPECT = {'MLoad': ('RLoad',), 'MDistance': ('RDistance',), 'MUnknownAct': ('AFo
 
 # breaches that necessarily damage other rules too (an inserted stop breaks load and routing): the checker's dedicated message
 DEDICATED = {'MCopyStop': 'job served in multiple tours', 'MMoveStop': 'job served in multiple tours',
-             'MBreakLoc': 'break location'}
+             'MBreakLoc': 'break location', 'MRelTour': 'relation', 'MRelShift': 'relation'}
+REL_SUB = ['tour', 'order', 'contiguity', 'anchor']
+
+
+# ---- python twin of Spec/Relations.v rel_viols on the JSON documents: proposes the relation breach sites and predicts the
+# violation constructors; VALIDATED against rel_viols (evaluated in Coq) on every base pair and every site (compare)
+MIDKINDS = JOBKINDS + ('break', 'reload')
+
+
+def _mid_ids(t):
+    return [a['jobId'] for st in t['stops'] for a in st['activities'] if a.get('type') in MIDKINDS]
+
+
+def _is_rel_tour(r, t):
+    return t.get('vehicleId') == r['vehicleId'] and t.get('shiftIndex', 0) == (r.get('shiftIndex') or 0)
+
+
+def rel_viols_py(rels, sol):
+    out = []
+    tours = sol.get('tours') or []
+    for i, r in enumerate(rels):
+        ids = [x for x in r['jobs'] if x not in ('departure', 'arrival')]
+        typ = e2e.REL_TYPE[r['type']]
+        mids = [_mid_ids(t) for t in tours]
+        ok = all(_is_rel_tour(r, t) or not any(x in ms for x in ids) for t, ms in zip(tours, mids))
+        ok = ok and (typ == 0 or all(any(_is_rel_tour(r, t) and x in ms for t, ms in zip(tours, mids)) for x in ids))
+        if not ok:
+            out.append(('FRelVehicle', i))
+        for t, ms in zip(tours, mids):
+            if not _is_rel_tour(r, t):
+                continue
+            n = len(ids)
+            if typ >= 1 and [x for x in ms if x in ids] != ids:
+                out.append(('FRelOrder', i))
+            if typ == 2 and not any(ms[j:j + n] == ids for j in range(len(ms) - n + 1)):
+                out.append(('FRelContiguous', i))
+            if typ == 2 and ((r['jobs'][:1] == ['departure'] and ms[:n] != ids)
+                             or (r['jobs'][-1:] == ['arrival'] and ms[len(ms) - n:] != ids)):
+                out.append(('FRelAnchor', i))
+    return sorted(set(out))
+
+
+def _rel_sites(p, s):
+    """breach sites for the relations of the plan: MRelTour (a stop with a pinned job moves to another tour) and MRelShift (a stop
+    moves inside its tour), kept when the twin of rel_viols says the breached document violates a relation; 'f' = sub-class
+    (0 tour, 1 order, 2 contiguity, 3 anchor), 'expect' = the F-Rel constructors the twin predicts"""
+    rels = p['problem']['plan'].get('relations') or []
+    if not rels or rel_viols_py(rels, s):
+        return []
+    tours, out, seen = s['tours'], [], set()
+    for ri, r in enumerate(rels):
+        ks = [k for k, t in enumerate(tours) if _is_rel_tour(r, t)]
+        if not ks:
+            continue
+        k = ks[0]
+        stops = tours[k]['stops']
+        ids = {x for x in r['jobs'] if x not in ('departure', 'arrival')}
+        movable = [si for si, st in enumerate(stops) if si >= 1 and st['activities']
+                   and not any(a.get('type') in ('departure', 'arrival') for a in st['activities'])]
+        cands = []
+        for si in movable:
+            if any(_is_job(a) and a['jobId'] in ids for a in stops[si]['activities']):
+                cands += [{'op': 'MRelTour', 'k': k, 's': si, 'k2': k2} for k2 in range(len(tours)) if k2 != k]
+        fixed_last = any(a.get('type') == 'arrival' for a in stops[-1]['activities'])
+        for si in movable:
+            cands += [{'op': 'MRelShift', 'k': k, 's': si, 's2': s2}
+                      for s2 in range(1, len(stops) - (1 if fixed_last else 0)) if s2 != si]
+        for m in cands:
+            key = json.dumps(m, sort_keys=True)
+            if key in seen:
+                continue
+            seen.add(key)
+            v = {c for c, _ in rel_viols_py(rels, mutate(p['problem'], s, m)[1])}
+            if m['op'] == 'MRelTour':
+                if 'FRelVehicle' not in v:
+                    continue
+                m['f'] = 0
+                if r['type'] == 'any' and tours[m['k2']].get('vehicleId') == r['vehicleId']:
+                    m['anyshift'] = True
+            else:
+                sub = [i for i, c in ((1, 'FRelOrder'), (2, 'FRelContiguous'), (3, 'FRelAnchor')) if c in v]
+                if not sub or 'FRelVehicle' in v:
+                    continue
+                m['f'] = sub[0]
+            m['expect'] = sorted(v)
+            m['r'] = ri
+            out.append(m)
+    return out
 
 
 def _spread(xs, cap, rot):
@@ -323,8 +516,16 @@ def sites(p, s, cap, rot=0):
             add({'op': 'MLoad', 'k': k, 's': si, 'd': 1})
             if load >= 1:
                 add({'op': 'MLoad', 'k': k, 's': si, 'd': -1})
-            if si + 1 < len(stops) and load >= 1:
-                add({'op': 'MCapacity', 'k': k, 's': si})
+            # any stop but a last one that holds the arrival (the final arrival unloads the vehicle); the LAST STOP OF A LOAD
+            # INTERVAL (last stop of an open-ended tour, stop in front of a reload stop) gets its own bucket ('f': 1): it is never
+            # the `from` stop of a leg of its interval (seeded change C12-3)
+            open_last = si + 1 == len(stops) and not any(a.get('type') == 'arrival' for a in st['activities'])
+            if load >= 1 and (si + 1 < len(stops) or open_last):
+                nxt = stops[si + 1]['activities'] if si + 1 < len(stops) else []
+                m = {'op': 'MCapacity', 'k': k, 's': si}
+                if open_last or (nxt and nxt[0].get('type') == 'reload'):
+                    m['f'] = 1
+                add(m)
             for d in (2, -2):
                 if si >= 1 and st['activities']:
                     add({'op': 'MArrival', 'k': k, 's': si, 'd': d})
@@ -357,8 +558,10 @@ def sites(p, s, cap, rot=0):
             add({'op': 'MLimitDuration', 'k': k})
         if len(_job_acts_ids(stops)) >= 1:
             add({'op': 'MLimitSize', 'k': k})
-        for m in _break_sites(p, k, t):
+        for m in _break_sites(p, s, k, t):
             add(m)
+    for m in _rel_sites(p, s):
+        add(m)
     for f in range(7):
         add({'op': 'MStatTotal', 'f': f, 'd': 1})
     add({'op': 'MUnknownUn'})
@@ -428,9 +631,10 @@ def model_term(c):
     p, s = base_of(c)
     ids = e2e.Ids(p)
     P, S = e2e.g_problem(p, ids), e2e.g_solution(p, s, ids)
+    R = e2e.g_relations(p, ids)             # [] without relations: valid_r [] = valid_b
     if c.get('mut') is None:
-        return '(run_base %s %s)' % (P, S)
-    return '(run_mutation %s %s %s)' % (g_mutation(c['mut'], ids), P, S)
+        return '(run_base_r %s %s %s)' % (R, P, S)
+    return '(run_mutation_r %s %s %s %s)' % (g_mutation(c['mut'], ids), R, P, S)
 
 
 def _ctor_names(viols):
@@ -439,10 +643,20 @@ def _ctor_names(viols):
 
 def compare(c, impl, model):
     m = c.get('mut')
+    p, s = base_of(c)
+    rels = p['problem']['plan'].get('relations') or []
+
+    def frel(viols):
+        return sorted({(t[0], int(t[1])) for t in e2e.coq_viols(viols) if t[0].startswith('FRel')})
     if m is None:
+        # the python twin of rel_viols (which proposes the relation breach sites) against rel_viols itself
+        if rels and frel(model[0]) != rel_viols_py(rels, s):
+            return 'python twin of rel_viols differs on the base pair: coq %s, python %s' % (frel(model[0]), rel_viols_py(rels, s))
         return None
     base_v, applicable, mut_v, (sfp, pfp) = model
-    p, s = base_of(c)
+    if rels and frel(mut_v) != rel_viols_py(rels, c['solution']):
+        return 'python twin of rel_viols differs on the breached pair: coq %s, python %s (%s)' % (
+            frel(mut_v), rel_viols_py(rels, c['solution']), json.dumps(m))
     ids = e2e.Ids(p)
     e2e.g_solution(p, s, ids)                       # same id numbering as model_term (foreign ids in order of appearance)
     if m['op'] in ('MUnknownAct', 'MUnknownUn'):
@@ -459,7 +673,7 @@ def compare(c, impl, model):
         names = _ctor_names(mut_v)
         if not names:
             return 'theorem instance fails: reference semantics accepts the breached pair, %s' % json.dumps(m)
-        exp = EXPECT.get(m['op'])
+        exp = m.get('expect') or EXPECT.get(m['op'])
         if exp and not (names & set(exp)):
             return 'breached pair rejected, but not for the expected reason %s: %s (%s)' % (exp, sorted(names), json.dumps(m))
     return None
@@ -707,7 +921,7 @@ def _match_causes(Ts, tag):
     return sorted(causes) or ['break']
 
 
-def _break_sites(p, k, t):
+def _break_sites(p, s, k, t):
     """sites of the "misplaced break" operators in tour k.  MBreakLoc: a break the checker attributes to some break (twin), not the
     first activity of a stop it shares (breaks.rs then holds the NEXT activity's location against the places), reported at a
     location where no place of any break of the shift is; MBreakDup / MBreakDrop: a break that takes time, in a tour for which the
@@ -725,7 +939,7 @@ def _break_sites(p, k, t):
             free = [l for l in range(n) if l != t['stops'][a['si']]['location']['index'] and l != a['loc'] and l not in placed]
             if free:
                 out.append({'op': 'MBreakLoc', 'k': k, 's': a['si'], 'a': a['ai'], 'l': free[(a['loc'] + 1) % len(free)]})
-        if a['end'] > a['start'] and _bk_amount_ok(p['solution_for_sites'], T):
+        if a['end'] > a['start'] and _bk_amount_ok(s, T):
             out.append({'op': 'MBreakDup', 'k': k, 's': a['si'], 'a': a['ai']})
             out.append({'op': 'MBreakDrop', 'k': k, 's': a['si'], 'a': a['ai']})
     return out
@@ -758,14 +972,40 @@ def _reject_structure(c, msg):
                 if any(a.get('type') == 'reload' for st in t['stops'] for a in st['activities']):
                     return ['/tour-with-reload']
         return ['']
-    if msg.startswith('break location') or msg.startswith('break visit time') or msg.startswith('cannot match all breaks'):
-        return [_break_structure(prob, sol)]
+    mm = re.match(r"relation (\d+) has jobs assigned to another tour", msg)
+    if mm:
+        # relations.rs (RelationType::Any) looks for the ids of the relation in the tours of the OTHER vehicles; the ids include
+        # the reserved ones (`departure`, `arrival`, ...: relations.md allows them in `jobs`), and every tour has an activity
+        # whose jobId is `departure`
+        rels = prob['plan'].get('relations') or []
+        r = rels[int(mm.group(1))] if int(mm.group(1)) < len(rels) else None
+        if r is not None and r['type'] == 'any':
+            others = [t for t in sol['tours'] if t.get('vehicleId') != r['vehicleId']]
+            reserved = [x for x in r['jobs'] if x in ('departure', 'arrival', 'break', 'reload')]
+            real = [x for x in r['jobs'] if x not in reserved]
+            if reserved and not any(x in _mid_ids(t) for t in others for x in real) and \
+                    any(a.get('jobId') in reserved for t in others for st in t['stops'] for a in st['activities']):
+                return ['/any-relation-lists-a-reserved-id']
+        return ['']
+    if msg.startswith('amount of breaks does not match'):
+        mm = re.search(r"expected: '(\d+)', got '(\d+)' for vehicle '([^']*)', shift index '(\d+)'", msg)
+        Ts = _bk_tours(prob, sol, mm.group(3), int(mm.group(4))) if mm else []
+        return _amount_causes(sol, Ts[0], int(mm.group(1)), int(mm.group(2))) if len(Ts) == 1 else ['']
+    if msg.startswith('cannot match all breaks'):
+        mm = re.search(r"matched: '(\d+)', actual '(\d+)' for vehicle '([^']*)', shift index '(\d+)'", msg)
+        Ts = _bk_tours(prob, sol, mm.group(3), int(mm.group(4))) if mm else []
+        return _matched_causes(Ts[0], int(mm.group(1)), int(mm.group(2))) if len(Ts) == 1 else ['']
+    if msg.startswith('cannot find break for tour'):
+        mm = re.search(r"for tour '([^']*)'", msg)
+        return _unresolved_causes(_bk_tours(prob, sol, mm.group(1) if mm else None))
+    if msg.startswith('break location') or msg.startswith('break visit time'):
+        return _location_causes(_bk_tours(prob, sol))
     if msg.startswith('cannot match activities to jobs'):
         cats = set()
         for item in msg.split(': ', 1)[1].split(', '):
             jid, _, tag = item.partition(':')
             if jid == 'break' and jid not in jobs:
-                cats.add('break' + _break_structure(prob, sol).replace('/', ':'))
+                cats |= set(_match_causes(_bk_tours(prob, sol), tag))
                 continue
             if jid == 'reload' and jid not in jobs:
                 # activity_matcher.rs::try_match_point_job takes the FIRST reload of the shift whose location / tag / time fit
@@ -838,7 +1078,10 @@ def oracle_model(c, impl, model):
     cls = mut_class(m, base_of(c)[1])
     if v == 'reject' and m['op'] in DEDICATED:
         # a breach that also damages load / routing is rejected anyway: the rule the class is about must be among the reasons
-        if not any(DEDICATED[m['op']] in str(e) for e in impl.get('errors') or []):
+        ded = DEDICATED[m['op']] if m.get('r') is None else 'relation %d ' % m['r']
+        if not any(ded in str(e) for e in impl.get('errors') or []):
+            if _masked(c, m, [str(e) for e in impl.get('errors') or []]):
+                return []
             return [{'class': 'checker-misses-rule:' + cls,
                      'what': 'breach %s at site %s rejected only for other reasons: %s' % (
                          cls, json.dumps(m), json.dumps(impl.get('errors'))[:400])}]
@@ -855,6 +1098,27 @@ def oracle_model(c, impl, model):
                  'what': 'breach %s at site %s accepted by the checker; reference semantics: %s' % (
                      cls, json.dumps(m), sorted(_ctor_names(model[2])))}]
     return [{'class': 'harness-error', 'what': str(impl)[:300]}]
+
+
+def _masked(c, m, errs):
+    """check_break_assignment and check_relations_assignment stop at the FIRST tour / relation that fails: a rejection of an
+    EARLIER tour (relation) - typically one of the known findings about valid documents - hides what the checker would say about
+    the breached one, so nothing can be concluded about the dedicated rule"""
+    sol = base_of(c)[1]
+    if m['op'] == 'MBreakLoc':
+        for e in errs:
+            mm = re.search(r"for vehicle '([^']*)', shift index '(\d+)'", e)
+            if mm and e.startswith(('cannot match all breaks', 'amount of breaks does not match')):
+                idx = [k for k, t in enumerate(sol['tours']) if t.get('vehicleId') == mm.group(1)
+                       and t.get('shiftIndex', 0) == int(mm.group(2))]
+                if idx and idx[0] < m['k']:
+                    return True
+    if m['op'] in ('MRelTour', 'MRelShift') and m.get('r') is not None:
+        for e in errs:
+            mm = re.match(r"relation (\d+) ", e)
+            if mm and int(mm.group(1)) < m['r']:
+                return True
+    return False
 
 
 def _panic_structure(c, impl):
@@ -893,12 +1157,14 @@ def classify(c, impl):
 
 
 MANIFEST_TEXT = ('Machine-checked proof (Coq, no axioms) that the reference semantics valid_b (Spec/Valid.v: accounting, feasibility '
-                 'inputs, replay of schedule / load / distance / statistics) rejects every single breach of the listed classes at every '
+                 'inputs, replay of schedule / load / distance / statistics; with the relation pinning rules of Spec/Relations.v: valid_r) '
+                 'rejects every single breach of the listed classes (incl. a break reported at another location, a pinned job leaving its tour) at every '
                  'applicable site of a valid (problem, solution) pair (Properties/C12.v, operators Spec/Mutations.v), plus the exact '
                  'equivalence of its accounting group with the declarative statement. The bundled Rust checker is tied to that semantics '
                  'behaviourally on every run: real solver outputs that valid_b accepts (evaluated inside Coq) must be accepted by the real '
                  'checker, and the same documents with each breach injected at systematically enumerated sites must be rejected.')
 MANIFEST_NOTE = ('Trusted: Coq kernel + vm_compute; JSON->Gallina rendering; harness. The Python mirror of the mutation operators is '
-                 'validated against the Coq operators by fingerprint on every site. Not covered: relations, breaks (not generated). '
+                 'validated against the Coq operators by fingerprint on every site; the Python twin of rel_viols (which proposes the '
+                 'relation breach sites) is validated against rel_viols on every pair. Not covered: required breaks, recharges. '
                  'Known findings: the checker never verifies cost and the times.* statistics, nor the cumulative distance of the first stop.')
 MANIFEST_TECHNIQUE = 'Coq proof (every breach class is rejected by the reference semantics) + behavioural tie of the real checker by systematic breach injection'
